@@ -24,4 +24,6 @@ def obligations(tier):
     for n in ([3, 4] if q else [3, 4, 5]):
         for h, j, a, p in ((0, 0, 0, 0), (1, 1, 0, 0), (1, 0, 0, 1), (0, 1, 1, 1), (0, 0, 1, 0), (0, 0, 0, 1)):
             L.append(ob("reformat/n=%d/html=%d/js=%d/allow=%d/preserve=%d" % (n, h, j, a, p), "internal/jsonwire", "VerifC11Reformat", [n, bool(h), bool(j), bool(a), bool(p)]))
+    for n in ([1, 2, 3] if q else [1, 2, 3, 4]):
+        L.append(ob("needescape/n=%d" % n, "internal/jsonwire", "VerifC11NeedEscape", [n], covers=["verbatim", "needs-escape"]))
     return L
